@@ -5,6 +5,7 @@ from numpy.linalg import norm
 from sklearn.utils import check_array
 from skglm.solvers.base import BaseSolver
 from skglm.utils.validation import check_attrs
+from skglm.utils import _verif
 
 
 class MultiTaskBCD(BaseSolver):
@@ -74,6 +75,9 @@ class MultiTaskBCD(BaseSolver):
                     W, grad, lipschitz, datafit, penalty, all_feats
                 )
             stop_crit = np.max(opt)
+            if _verif.ON:
+                _verif.emit("outer", solver="MultiTaskBCD", t=t, stop_crit=stop_crit,
+                            w=W, Xw=XW)
             if self.verbose:
                 print(f"Stopping criterion max violation: {stop_crit:.2e}")
             if stop_crit <= self.tol:
@@ -137,12 +141,21 @@ class MultiTaskBCD(BaseSolver):
                                       + self.fit_intercept * W_acc[-1])
                             p_obj_acc = datafit.value(
                                 Y, W_acc, Xw_acc) + penalty.value(W_acc)
+                            if _verif.ON:
+                                _verif.emit("extrap", solver="MultiTaskBCD", t=t,
+                                            epoch=epoch, w=W, Xw=XW, w_acc=W_acc,
+                                            Xw_acc=Xw_acc, p_obj=p_obj,
+                                            p_obj_acc=p_obj_acc)
                             if p_obj_acc < p_obj:
                                 W[:] = W_acc
                                 XW[:] = Xw_acc
                         except np.linalg.LinAlgError:
                             if max(self.verbose - 1, 0):
                                 print("----------Linalg error")
+
+                if _verif.ON:
+                    _verif.emit("epoch", solver="MultiTaskBCD", t=t, epoch=epoch,
+                                w=W, Xw=XW)
 
                 if epoch > 0 and epoch % 10 == 0:
                     p_obj = datafit.value(Y, W[ws, :], XW) + penalty.value(W)
@@ -173,6 +186,12 @@ class MultiTaskBCD(BaseSolver):
                                 print("Early exit")
                             break
             obj_out.append(p_obj)
+            if _verif.ON:
+                _verif.emit("outer_end", solver="MultiTaskBCD", t=t, p_obj=p_obj,
+                            w=W, Xw=XW)
+        if _verif.ON:
+            _verif.emit("return", solver="MultiTaskBCD", stop_crit=stop_crit, w=W,
+                        Xw=XW, n_obj=len(obj_out))
         return W, np.array(obj_out), stop_crit
 
     def path(self, X, Y, datafit, penalty, alphas, W_init=None, return_n_iter=False):
